@@ -98,6 +98,13 @@ class UnsafeNodeError(ExpressionError):
     pass
 
 
+# Python-level errors raised by applying an operator or function to operand values
+# of the wrong type/shape. Evaluators report these as ExpressionError so that callers
+# (which skip rules/views on ExpressionError) never abort on a single bad expression.
+_OPERAND_ERRORS = (TypeError, ValueError, AttributeError, KeyError, IndexError,
+                   StopIteration, ArithmeticError, re.error)
+
+
 # =============================================================================
 # AST Validation
 # =============================================================================
@@ -722,7 +729,14 @@ class ExpressionEvaluator:
         """Evaluate an AST node and return its value."""
         method = f'_eval_{type(node).__name__}'
         if hasattr(self, method):
-            return getattr(self, method)(node)
+            try:
+                return getattr(self, method)(node)
+            except ExpressionError:
+                raise
+            except _OPERAND_ERRORS as e:
+                # Operators and functions are applied to operand values directly; an
+                # ill-typed or partial operand is an expression error, not a crash.
+                raise ExpressionError(f"Cannot evaluate expression: {type(e).__name__}: {e}")
         raise ExpressionError(f"Cannot evaluate node type: {type(node).__name__}")
 
     def _eval_Expression(self, node: ast.Expression) -> Any:
@@ -896,7 +910,14 @@ class TransactionEvaluator:
         """Evaluate an AST node and return its value."""
         method = f'_eval_{type(node).__name__}'
         if hasattr(self, method):
-            return getattr(self, method)(node)
+            try:
+                return getattr(self, method)(node)
+            except ExpressionError:
+                raise
+            except _OPERAND_ERRORS as e:
+                # Operators and functions are applied to operand values directly; an
+                # ill-typed or partial operand is an expression error, not a crash.
+                raise ExpressionError(f"Cannot evaluate expression: {type(e).__name__}: {e}")
         raise ExpressionError(f"Cannot evaluate node type: {type(node).__name__}")
 
     def _eval_Expression(self, node: ast.Expression) -> Any:
